@@ -59,7 +59,11 @@ fn drain_blocking<R: Read>(mut rd: R, phase: usize, total: usize) -> Vec<u8> {
     out
 }
 
-fn drain_async<R: AsyncRead + Unpin>(mut rd: R, phase: usize, total: usize) -> Vec<u8> {
+fn drain_async<R: AsyncRead + Unpin>(rd: R, phase: usize, total: usize) -> Vec<u8> {
+    in_executor(move || drain_async_inner(rd, phase, total))
+}
+
+fn drain_async_inner<R: AsyncRead + Unpin>(mut rd: R, phase: usize, total: usize) -> Vec<u8> {
     let waker = futures_util::task::noop_waker();
     let mut cx = Context::from_waker(&waker);
     let mut out = Vec::with_capacity(256);
